@@ -60,7 +60,7 @@ package jschema
 //@ pred notPooled(r []byte) := r.arr != 0 ==> !pool_array(r.arr)
 
 //@ func (*exampleBuilder).Build
-//@   property C10 C02
+//@   property C10
 //@   requires b != nil
 //@   may_panic
 //@   modifies pool_state(), mapof(b.processedTypes)
@@ -68,7 +68,7 @@ package jschema
 //@   at call:Data.after assume notPooled(ret0)
 
 //@ func (*exampleBuilder).buildExampleForObjectNode
-//@   property C10 C02
+//@   property C10
 //@   requires b != nil
 //@   may_panic
 //@   modifies pool_state(), mapof(b.processedTypes)
@@ -77,14 +77,14 @@ package jschema
 //@   loop#1 decreases len(children) - rangeindex
 
 //@ func (*exampleBuilder).buildObjectKey
-//@   property C10 C02
+//@   property C10
 //@   requires b != nil
 //@   may_panic
 //@   modifies pool_state(), mapof(b.processedTypes)
 //@   ensures result1 == nil ==> notPooled(result0)
 
 //@ func (*exampleBuilder).buildExampleForArrayNode
-//@   property C10 C02
+//@   property C10
 //@   requires b != nil
 //@   may_panic
 //@   modifies pool_state(), mapof(b.processedTypes)
@@ -93,7 +93,7 @@ package jschema
 //@   loop#1 decreases len(children) - rangeindex
 
 //@ func (*exampleBuilder).buildExampleForMixedValueNode
-//@   property C10 C02
+//@   property C10
 //@   requires b != nil
 //@   may_panic
 //@   modifies pool_state(), mapof(b.processedTypes)
@@ -101,14 +101,14 @@ package jschema
 //@   at call:Data.after assume notPooled(ret0)
 
 //@ func buildExample
-//@   property C10 C02
+//@   property C10
 //@   may_panic
 //@   modifies pool_state()
 //@   ensures result1 == nil ==> notPooled(result0)
 //@   at call:Data.after assume notPooled(ret0)
 
 //@ func buildExampleForObjectNode
-//@   property C10 C02
+//@   property C10
 //@   may_panic
 //@   modifies pool_state()
 //@   ensures result1 == nil ==> notPooled(result0)
@@ -116,7 +116,7 @@ package jschema
 //@   loop#1 decreases len(children) - rangeindex
 
 //@ func buildExampleForArrayNode
-//@   property C10 C02
+//@   property C10
 //@   may_panic
 //@   modifies pool_state()
 //@   ensures result1 == nil ==> notPooled(result0)
@@ -124,8 +124,29 @@ package jschema
 //@   loop#1 decreases len(children) - rangeindex
 
 //@ func buildExampleForMixedValueNode
-//@   property C10 C02
+//@   property C10
 //@   may_panic
 //@   modifies pool_state()
 //@   ensures result1 == nil ==> notPooled(result0)
 //@   at call:Data.after assume notPooled(ret0)
+
+// ---- used user types (C05): the collector is an insertion-ordered set ---------------------------------
+
+//@ ghostfield userTypesCollector.$pos (Array Str Int)
+
+//@ pred wfCollector(c *userTypesCollector) := c != nil && c.alreadyProcessed != nil && len(c.alreadyProcessed) == len(c.userTypes)
+//@     && (forall k string :: {c.$pos[k]} k in c.alreadyProcessed ==> 0 <= c.$pos[k] && c.$pos[k] < len(c.userTypes) && c.userTypes[c.$pos[k]] == k)
+//@     && (forall p :: {elems(c.userTypes)[p]} c.userTypes.off <= p && p < c.userTypes.off + len(c.userTypes) ==> elems(c.userTypes)[p] in c.alreadyProcessed && c.$pos[elems(c.userTypes)[p]] == p - c.userTypes.off)
+
+//@ func (*userTypesCollector).addType
+//@   property C05
+//@   requires wfCollector(c)
+//@   modifies c.userTypes, c.$pos, mapof(c.alreadyProcessed), elems(c.userTypes)
+//@   ensures wfCollector(c)
+//@   ensures n in c.alreadyProcessed
+//@   ensures forall k2 string :: k2 != n ==> ((k2 in c.alreadyProcessed) == old(k2 in c.alreadyProcessed))
+//@   ensures old(n in c.alreadyProcessed) ==> len(c.userTypes) == old(len(c.userTypes))
+//@   ensures !old(n in c.alreadyProcessed) ==> len(c.userTypes) == old(len(c.userTypes)) + 1 && c.userTypes[len(c.userTypes)-1] == n
+//@   ensures forall i :: 0 <= i && i < old(len(c.userTypes)) ==> c.userTypes[i] == old(c.userTypes[i])
+//@   no_panic
+//@   at return set c.$pos = old(n in c.alreadyProcessed) ? c.$pos : store(c.$pos, n, old(len(c.userTypes)))
